@@ -136,6 +136,10 @@ def dictOf {κ ν : Type} [DecidableEq κ] (ps : List (κ × ν)) : List (κ × 
 def dictGet {κ ν : Type} [DecidableEq κ] (d : List (κ × ν)) (k : κ) : Option ν :=
   (d.find? (fun x => x.1 = k)).map Prod.snd
 
+/-- `d.pop(k, None)` -/
+def dictErase {κ ν : Type} [DecidableEq κ] (d : List (κ × ν)) (k : κ) : List (κ × ν) :=
+  d.filter (fun x => x.1 ≠ k)
+
 /-- `bytes[i]`: IndexError past the end -/
 def byteAt (b : Bytes) (i : Nat) : Option Nat := (b[i]?).map UInt8.toNat
 
